@@ -381,10 +381,16 @@ Proof.
     rewrite !andb_true_iff, !N.eqb_refl. repeat split. now apply Nat.ltb_lt.
 Qed.
 
+Lemma lookupN_in_keys {A} w (l : list (N * A)) y : lookupN w l = Some y -> In w (map fst l).
+Proof.
+  induction l as [|[k z] t IH]; cbn [lookupN map fst In]; [discriminate|].
+  destruct (N.eqb k w) eqn:E; [apply N.eqb_eq in E; auto|auto].
+Qed.
+
 (** What [event_okb] decides, for a command event. *)
 Definition EventOk (strict : bool) (rec : list (nat * N * N)) (st : state) (ev : event) : Prop :=
   e_kind ev <> KEdit ->
-  forall w ws, In (w, ws) (s_ws st) ->
+  forall w ws, lookupN w (s_ws st) = Some ws ->
     let changed := match lookupN w (e_ws_post ev) with
                    | Some ws' => w_disk ws' <> w_disk ws
                    | None => True
@@ -395,25 +401,33 @@ Definition EventOk (strict : bool) (rec : list (nat * N * N)) (st : state) (ev :
     RecordedIn rec (length (s_ops st) + length (e_ops ev)) w (w_disk ws)
     \/ (strict = false /\ w = e_ws ev /\ absent_from_view st w = true).
 
+Definition okb_body (strict : bool) (rec : list (nat * N * N)) (st : state) (ev : event) (w : N) : bool :=
+  match lookupN w (s_ws st) with
+  | None => true
+  | Some ws =>
+    let d := w_disk ws in
+    let changed := match lookupN w (e_ws_post ev) with
+                   | Some ws' => negb (N.eqb (w_disk ws') d)
+                   | None => true
+                   end in
+    let snapshotted := N.eqb w (e_ws ev) && N.eqb (e_status ev) 0
+                       && negb (absent_from_view st w)
+                       && match e_kind ev with KNormal | KWorkspaceAdd _ | KUpdateStale => true | _ => false end in
+    negb (changed || snapshotted)
+    || recorded rec (length (s_ops st) + length (e_ops ev)) w d
+    || (negb strict && N.eqb w (e_ws ev) && absent_from_view st w)
+  end.
+
+Lemma event_okb_unfold strict rec st ev : e_kind ev <> KEdit ->
+  event_okb strict rec st ev = forallb (okb_body strict rec st ev) (map fst (s_ws st)).
+Proof. unfold event_okb, okb_body. destruct (e_kind ev); intros H; try reflexivity. contradiction. Qed.
+
 Lemma event_okb_spec strict rec st ev : event_okb strict rec st ev = true -> EventOk strict rec st ev.
 Proof.
-  unfold event_okb, EventOk. intros H Hk w ws Hin Hneed.
-  assert (F : forallb (fun p =>
-        let w := fst p in
-        let d := w_disk (snd p) in
-        let changed := match lookupN w (e_ws_post ev) with
-                       | Some ws' => negb (N.eqb (w_disk ws') d)
-                       | None => true
-                       end in
-        let snapshotted := N.eqb w (e_ws ev) && N.eqb (e_status ev) 0
-                           && negb (absent_from_view st w)
-                           && match e_kind ev with KNormal | KWorkspaceAdd _ | KUpdateStale => true | _ => false end in
-        negb (changed || snapshotted)
-        || recorded rec (length (s_ops st) + length (e_ops ev)) w d
-        || (negb strict && N.eqb w (e_ws ev) && absent_from_view st w)) (s_ws st) = true).
-  { destruct (e_kind ev); try exact H. contradiction. }
-  clear H. rewrite forallb_forall in F. specialize (F (w, ws) Hin). cbn [fst snd] in F.
-  rewrite !orb_true_iff in F. destruct F as [[F|F]|F].
+  unfold EventOk. intros H Hk w ws Hw Hneed.
+  rewrite (event_okb_unfold _ _ _ _ Hk), forallb_forall in H.
+  specialize (H w (lookupN_in_keys _ _ _ Hw)). unfold okb_body in H. rewrite Hw in H.
+  rewrite !orb_true_iff in H. destruct H as [[F|F]|F].
   - exfalso. apply negb_true_iff in F. apply orb_false_iff in F. destruct F as [F1 F2].
     destruct Hneed as [Hc|[-> [Hs [Ha Hi]]]].
     + destruct (lookupN w (e_ws_post ev)) as [ws'|]; [|discriminate].
@@ -422,4 +436,118 @@ Proof.
   - left. now apply recorded_spec.
   - right. rewrite !andb_true_iff in F. destruct F as [[F1 F2] F3].
     apply negb_true_iff in F1. apply N.eqb_eq in F2. auto.
+Qed.
+
+(** * Every trace the model accepts passes the (non-strict) oracle *)
+
+(** A successful snapshotting command in a workspace that is in the loaded view records the
+    disk even when it does not overwrite it. *)
+Lemma exp_present_recorded st ev h ws r :
+  exp_present st ev h ws = Some r -> e_status ev = 0%N ->
+  RecordedEarly st ev (e_ws ev) (w_disk ws).
+Proof.
+  unfold exp_present. intros H Hst. rewrite Hst in H. cbn [N.eqb] in H.
+  destruct (check_stale (s_ops st) ws h (e_ws ev)); cbn [andb] in H; try discriminate.
+  - destruct (snapshot_phase (s_ops st) h (e_ws ev) (w_disk ws) (e_ops ev)) as [[[cur body] bidx]|] eqn:S;
+      [|discriminate].
+    exists cur. eapply snapshot_phase_recorded; eauto.
+  - destruct (snapshot_phase (s_ops st) wc_op (e_ws ev) (w_disk ws) (e_ops ev)) as [[[cur body] bidx]|] eqn:S;
+      [|discriminate].
+    exists cur. eapply snapshot_phase_recorded; eauto.
+Qed.
+
+Lemma exp_update_stale_recorded st ev h ws r :
+  exp_update_stale st ev h ws = Some r -> RecordedEarly st ev (e_ws ev) (w_disk ws).
+Proof.
+  unfold exp_update_stale.
+  destruct (snapshot_phase (s_ops st) (w_op ws) (e_ws ev) (w_disk ws) (e_ops ev))
+    as [[[cur rest] idx]|] eqn:S; [|discriminate].
+  intros _. exists cur. eapply snapshot_phase_recorded; eauto.
+Qed.
+
+Lemma accept_snapshotted st ev st' ws :
+  accept st ev = Some st' -> e_status ev = 0%N ->
+  lookupN (e_ws ev) (s_ws st) = Some ws ->
+  absent_from_view st (e_ws ev) = false ->
+  (e_kind ev = KNormal \/ e_kind ev = KUpdateStale \/ exists nw, e_kind ev = KWorkspaceAdd nw) ->
+  RecordedEarly st ev (e_ws ev) (w_disk ws).
+Proof.
+  intros Hacc Hst Hw Habs Hk.
+  destruct (accept_inv st ev st' Hacc) as [_ [He|[r [Hr _]]]].
+  - unfold early_error in He. rewrite Hst in He. discriminate.
+  - unfold expected_res in Hr. rewrite Hw in Hr.
+    destruct (s_heads st) as [|h [|h2 t]] eqn:Hh; try discriminate.
+    unfold absent_from_view in Habs. rewrite Hh in Habs.
+    destruct (tree_of (s_ops st) h (e_ws ev)) eqn:T; [|discriminate].
+    destruct Hk as [K|[K|[nw K]]]; rewrite K in Hr.
+    + eapply exp_present_recorded; eauto.
+    + eapply exp_update_stale_recorded; eauto.
+    + eapply exp_present_recorded; eauto.
+Qed.
+
+Lemma recorded_early_bound st ev w d :
+  RecordedEarly st ev w d ->
+  exists i, i < length (s_ops st) + length (e_ops ev)
+            /\ tree_of (s_ops st ++ e_ops ev) i w = Some d.
+Proof.
+  intros [i Hi]. exists i.
+  assert (i < length (s_ops st ++ firstn 1 (e_ops ev))) as Hlt.
+  { unfold tree_of in Hi. destruct (nth_error (s_ops st ++ firstn 1 (e_ops ev)) i) eqn:E; [|discriminate].
+    apply nth_error_Some. congruence. }
+  rewrite app_length in Hlt.
+  assert (length (firstn 1 (e_ops ev)) <= length (e_ops ev)) by (destruct (e_ops ev); cbn; lia).
+  split; [lia|].
+  destruct (firstn1_prefix (e_ops ev)) as [r Hr]. rewrite Hr at 1.
+  rewrite app_assoc. now apply tree_of_app.
+Qed.
+
+Lemma accept_event_okb rec st ev st' :
+  accept st ev = Some st' ->
+  (forall i w d, tree_of (s_ops st') i w = Some d -> In (i, w, d) rec) ->
+  event_okb false rec st ev = true.
+Proof.
+  intros Hacc Hrec.
+  destruct (match e_kind ev with KEdit => true | _ => false end) eqn:KE.
+  { unfold event_okb. destruct (e_kind ev); try discriminate. reflexivity. }
+  assert (Hk : e_kind ev <> KEdit) by (intros X; rewrite X in KE; discriminate).
+  rewrite (event_okb_unfold _ _ _ _ Hk). apply forallb_forall. intros w _.
+  unfold okb_body. destruct (lookupN w (s_ws st)) as [ws|] eqn:Hw; [|reflexivity].
+  destruct (accept_step_safe st ev st' Hacc Hk w ws Hw) as [ws' [Hw' Hsafe]].
+  destruct (accept_inv st ev st' Hacc) as [E _].
+  assert (Hpost : lookupN w (e_ws_post ev) = Some ws') by (rewrite E in Hw'; exact Hw').
+  rewrite Hpost.
+  assert (Rec : RecordedEarly st ev w (w_disk ws) ->
+                recorded rec (length (s_ops st) + length (e_ops ev)) w (w_disk ws) = true).
+  { intros R. apply recorded_spec. destruct (recorded_early_bound st ev w _ R) as [i [Hlt Hi]].
+    exists i. split; [assumption|]. apply Hrec. rewrite E. exact Hi. }
+  cbn [negb andb].
+  destruct (negb (N.eqb (w_disk ws') (w_disk ws))) eqn:Ch.
+  - (* the disk changed *)
+    apply negb_true_iff, N.eqb_neq in Ch.
+    destruct Hsafe as [X|[-> [R|A]]]; [contradiction| |].
+    + rewrite (Rec R), orb_true_r. reflexivity.
+    + rewrite A, N.eqb_refl. cbn [andb]. apply orb_true_r.
+  - cbn [orb].
+    destruct (N.eqb w (e_ws ev) && N.eqb (e_status ev) 0 && negb (absent_from_view st w)
+              && match e_kind ev with KNormal | KWorkspaceAdd _ | KUpdateStale => true | _ => false end) eqn:Sn;
+      [|reflexivity].
+    rewrite !andb_true_iff in Sn. destruct Sn as [[[S1 S2] S3] S4].
+    apply N.eqb_eq in S1, S2. apply negb_true_iff in S3. subst w.
+    assert (R : RecordedEarly st ev (e_ws ev) (w_disk ws)).
+    { eapply accept_snapshotted; eauto.
+      destruct (e_kind ev); try discriminate; eauto. }
+    rewrite (Rec R). reflexivity.
+Qed.
+
+Lemma run_accept_okb rec evs : forall st stf,
+  run st evs = Some stf ->
+  (forall i w d, tree_of (s_ops stf) i w = Some d -> In (i, w, d) rec) ->
+  run_okb false rec st evs = true.
+Proof.
+  induction evs as [|ev t IH]; intros st stf Hrun Hrec; cbn [run_okb]; [reflexivity|].
+  cbn [run] in Hrun. destruct (accept st ev) as [st1|] eqn:Ha; [|discriminate].
+  apply andb_true_iff. split.
+  - eapply accept_event_okb; eauto. intros i w d Hi. apply Hrec.
+    destruct (run_ops_prefix t st1 stf Hrun) as [more Hm]. rewrite Hm. now apply tree_of_app.
+  - destruct (accept_inv st ev st1 Ha) as [E _]. rewrite <- E. eapply IH; eauto.
 Qed.
